@@ -47,6 +47,7 @@ def apply(cx, rules, tag="dev-none-stable"):
         ok, detail = o["ok"], o["detail"]
         if not ok and o["rule"] == "R-PANIC":
             fn, _, msg = o["key"].partition("|")
+            fn = fn.split(">")[-1]
             for i, ent in enumerate(panic_tab):
                 if ent["fn"].replace("Lexer::", "") == fn and norm_msg(msg).startswith(norm_msg(ent["msg"])[:len(norm_msg(msg))]) or \
                         (ent["fn"].replace("Lexer::", "") == fn and norm_msg(ent["msg"]).startswith(norm_msg(msg)[:120])):
